@@ -531,6 +531,73 @@ def _has_int_guard(f, name):
     return False
 
 
+def _retypes_integers(g):
+    """g(x, ...) returns x unless its dtype is an integer type, in which
+    case it returns a re-typed copy (either polarity of the test)."""
+    if not g.params:
+        return False
+    x = g.params[0]
+    for n in ast.walk(g.node):
+        if not isinstance(n, ast.If):
+            continue
+        t = dotted(n.test)
+        if x in t and any(w in t for w in _INT_GUARD_WORDS):
+            for arm in (n.body, n.orelse or g.node.body[g.node.body.index(n) + 1:]
+                        if n in g.node.body else n.orelse):
+                for st in arm:
+                    for y in ast.walk(st):
+                        if isinstance(y, ast.Return) and y.value is not None \
+                                and ("astype" in dotted(y.value)
+                                     or "dtype=" in dotted(y.value)):
+                            return True
+    return False
+
+
+def _helper_sites_retyped(ctx, f, tgt):
+    """f is a private module-level helper: every call site passes, for the
+    parameter `tgt`, a value that went through an integer re-typing."""
+    if f.parent is not None or not f.node.name.startswith("_") \
+            or f.cls is not None:
+        return False
+    pos = f.params.index(tgt)
+    sites = 0
+    for g in ctx.p.all_functions:
+        if g.module is not f.module:
+            continue
+        for c in ast.walk(g.node):
+            if not (isinstance(c, ast.Call)
+                    and dotted(c.func) == f.node.name):
+                continue
+            sites += 1
+            arg = c.args[pos] if pos < len(c.args) else next(
+                (k.value for k in c.keywords if k.arg == tgt), None)
+            if arg is None:
+                return False
+            ok = False
+            if isinstance(arg, ast.Call):
+                h = next((h for h in ctx.p.all_functions
+                          if h.module is f.module and h.parent is None
+                          and h.cls is None
+                          and h.node.name == dotted(arg.func)), None)
+                ok = h is not None and _retypes_integers(h)
+                ok = ok or "astype" in dotted(arg)
+            elif isinstance(arg, ast.Name):
+                ok = _has_int_guard(g, arg.id) or any(
+                    isinstance(x, ast.Assign) and any(
+                        dotted(t) == arg.id for t in x.targets)
+                    and x.lineno < c.lineno and isinstance(
+                        x.value, ast.Call) and any(
+                        h.node.name == dotted(x.value.func)
+                        and _retypes_integers(h)
+                        for h in ctx.p.all_functions
+                        if h.module is f.module and h.parent is None
+                        and h.cls is None)
+                    for x in ast.walk(g.node))
+            if not ok:
+                return False
+    return sites > 0
+
+
 def rule_t3(ctx, rels):
     r = ctx.r
     r.rule("T3", "a true division is never written in place into an array "
@@ -574,6 +641,10 @@ def rule_t3(ctx, rels):
                     r.ok("T3", inst, loc(f, n), dotted(n)[:100],
                          "the buffer is re-typed before the in-place "
                          "division")
+                elif _helper_sites_retyped(ctx, f, tgt):
+                    r.ok("T3", inst, loc(f, n), dotted(n)[:100],
+                         "private helper: every call site passes a buffer "
+                         "that went through the integer re-typing")
                 else:
                     r.violation(
                         "T3", f"{f.fq}|inplace-div:{tgt}", loc(f, n),
